@@ -12,6 +12,9 @@ COMMANDS = {1: "spawn", 2: "shell", 3: "die", 4: "sleep", 5: "cd", 7: "keylog_st
             53: "file_list", 54: "file_mkdir", 55: "file_drives", 56: "file_rm", 72: "setenv", 77: "getprivs",
             100: "inline_execute_object", 102: "lsocket_bind_localhost"}
 CALLBACKS = [0, 13, 17, 19, 22, 30, 31, 32]
+# ids outside the library's BeaconCommand / BeaconCallback tables: legal on the wire (newer Cobalt Strike releases add ids)
+ODD_COMMANDS = [20, 21, 25, 26, 30, 34, 35, 36, 48, 58, 103, 150, 0xFFFF, 0x7FFFFFFF, 0xFFFFFFFF, 0]
+ODD_CALLBACKS = [33, 34, 40, 100, 0xFFFF, 0x7FFFFFFF, 0xFFFFFFFF]
 _NAMES = ["alice", "bob", "WIN-7Q2", "DESKTOP-AB12CD3", "svc_backup", "j.smith", "x"]
 
 
@@ -118,7 +121,13 @@ def gen_session(rng, focus: str, tier: str = "quick"):
             for _ in range(rng.randint(1, 3)):
                 operator.append({"at_us": c["start_at_us"] + rng.randint(st * 1000, max(st * 1000 + 1, (ncheck - 1) * st * 1000 // 2)),
                                  "client": c["k"],
-                                 "callbacks": [[rng.choice(CALLBACKS), hx(_data(rng, 200))] for _ in range(rng.randint(2, 5))]})
+                                 "callbacks": [[rng.choice(CALLBACKS + [rng.choice(ODD_CALLBACKS)]), hx(_data(rng, 200))]
+                                               for _ in range(rng.randint(2, 5))]})
+        if rng.random() < 0.3:
+            for _ in range(rng.randint(1, 3)):
+                cmd = rng.choice(ODD_COMMANDS + [rng.choice(sorted(COMMANDS)), rng.getrandbits(32)])
+                operator.append({"at_us": c["start_at_us"] + rng.randint(st * 1000, max(st * 1000 + 1, (ncheck - 1) * st * 1000 // 2)),
+                                 "client": c["k"], "unsolicited_task": [cmd, hx(_data(rng, 300))]})
         if faulty:
             kinds = rng.sample(["drop_request", "drop_response", "dup_request", "http_error", "corrupt_request",
                                 "corrupt_response", "delay"], rng.randint(1, 4))
